@@ -389,7 +389,8 @@ def run_unit(unit):
                         continue
                     flat = bool(np.all(np.abs(b - diss[i]) <= 1e-9 * abs(diss[i])))
                     c.violation(
-                        dict(key, check="balance"),
+                        # u10 (one decimal) lets a known-findings entry address e.g. the low-wind class by interval
+                        dict(key, check="balance", u10=round(float(u10[i]), 1)),
                         f"u10={u10[i]:.4f} m/s does not close the balance: B(u10)/|dissipation| = {b[2] / abs(diss[i]):+.3g}, no "
                         f"sign change of B on [u10-0.05, u10+0.05]"
                         + (" (wind input is identically zero there: B = dissipation)" if flat else "")
@@ -460,7 +461,7 @@ def run_unit(unit):
                 c.cat("missing_result_root_in_2_40")
                 c.nontriv((g, pair, dkey(dep), variant, hs, fp, mean, w))
                 c.violation(
-                    dict(key, check="degenerate"),
+                    dict(key, check="degenerate", root=round(float(0.5 * (lo[k] + hi[k])), 1)),
                     f"u10 is missing (NaN) although the balance has a root at {0.5 * (lo[k] + hi[k]):.3f} m/s "
                     f"[{pair} {g} Hs={hs} fp={fp} mean={mean} depth={dep} width={w} dedt={variant}]",
                     root_bracket=[float(lo[k]), float(hi[k])], B_at_bracket=[float(blo[k]), float(bhi[k])],
